@@ -106,6 +106,10 @@ def gen_mut(tp):
     if k == 8:
         # a bundle whose earlier elements are fine and whose last one is not
         return ['badlast', tp.choice(['hibit', 'tag', 'cut'])]
+    if k == 9:
+        # a blob argument that announces an impossible size
+        return ['blobsize', tp.choice([-4, -1, -8, -2 ** 31, 2 ** 31 - 1,
+                                       1 << 20])]
     return None
 
 
@@ -146,6 +150,11 @@ def gen_case(tp, tier):
             mut = gen_mut(tp)
             if mut is not None and mut[0] == 'badlast' and pk[0] == 'm':
                 pk = ['b', 'imm', [pk, gen_packet(tp, ctr, used, 2)]]
+            if mut is not None and mut[0] == 'blobsize':
+                while pk[0] != 'm':
+                    pk = pk[2][0]
+                pk = ['m', pk[1], [pk[2][0], ['blob', [1, 2, 3, 4, 5]]]
+                      + pk[2][1:2]]
             ops.append(['send', tp.draw(len(SRCS)),
                         XPORT if tp.draw(6) == 0 else LIB_PORT, pk, mut])
         elif r < 88 and nresp:
@@ -224,7 +233,9 @@ def shrink_candidates(case):
 
 def encode(pk, now_tag):
     if pk[0] == 'm':
-        return osc.encode_message(pk[1], pk[2])
+        return osc.encode_message(
+            pk[1], [bytes(a[1]) if isinstance(a, list) and a[:1] == ['blob']
+                    else a for a in pk[2]])
     tt = {'imm': 1, 'past': now_tag - (1 << 32),
           'future': now_tag + (1 << 31)}[pk[1]]
     return osc.encode_bundle(tt, [encode(e, now_tag) for e in pk[2]])
@@ -247,6 +258,19 @@ def mutate(data, mut):
             return data
         b = bytearray(data)
         b[len(b) - 1 - mut[1] % len(b)] ^= 1 << mut[2]
+        return bytes(b)
+    if k == 'blobsize':
+        # (the message was generated with a blob as its second argument:
+        # address, ',ib...' tags, int32, then the blob's size field)
+        c = data.find(b',ib')
+        if data[:1] != b'/' or c < 0:
+            return data
+        tags_end = data.index(b'\0', c)
+        at = (tags_end + 4) & ~3
+        b = bytearray(data)
+        if at + 8 > len(b):
+            return data
+        b[at + 4:at + 8] = struct.pack('>i', mut[1])
         return bytes(b)
     if k == 'badlast':
         if len(data) < 20 or data[:8] != b'#bundle\0':
@@ -562,6 +586,12 @@ def run_case(case, tape, ctx):
                          f'a bundle whose first element length field was '
                          f'set to {mut[1]} ({err}) still invoked '
                          f'{len(got)} responder(s)')
+                return False
+            elif got and mut is not None and mut[0] == 'blobsize':
+                viol.add('C18-3', 'malformed-blob-size-dispatched',
+                         f'a message whose blob announces the size {mut[1]} '
+                         f'({err}) invoked {len(got)} responder(s) with '
+                         f'{[g.get("msg") for g in got][:2]}')
                 return False
             elif got and mut is not None and mut[0] == 'trunc' \
                     and any(x in err for x in UNAMBIGUOUS):
